@@ -844,7 +844,8 @@ pub fn property_c01() -> Property {
         level: "exploration",
         parts: vec![
             Box::new(PropPart(C01Plan)),
-            Box::new(PropPart(crate::props::e2e::C01Full)),
+            Box::new(PropPart(crate::props::e2e::C01Full(crate::fullrun::Runner::Hook))),
+            Box::new(PropPart(crate::props::e2e::C01Full(crate::fullrun::Runner::Binary))),
         ],
     }
 }
